@@ -152,6 +152,8 @@ def main() -> None:
                 os._exit(77)
             if idx in fail_ops and name == "write":
                 return False
+            if idx in fail_ops and name == "remove":
+                raise PermissionError(13, "simulated failure to remove a cache record", str(a[0]) if a else "")
             return orig(self, *a, **k)
 
         setattr(cls, name, w)
